@@ -59,4 +59,10 @@ theorem dispatch_cache_is_one_locked_region :
 /-- a new global variable enters the package's table under the package lock -/
 theorem package_variable_table_written_locked : pkgSetWriteLocked = true := by decide
 
+/-- the printer keeps nothing between calls: no method of `Printer` writes a package level variable
+    (pads, buffers or caches grown on demand would be shared by every routine that prints; the
+    race on such a variable is only visible to the race detector of the thorough tier) -/
+theorem printer_methods_write_no_shared_variable :
+    0 < printerMethods ∧ printerSharedWrites = 0 := by decide
+
 end SlipVerif.GenC17
